@@ -58,6 +58,7 @@ class Modes(Stage):
         return dict(text=text, chunks=[gen_chunks(d, data), gen_chunks(d, data)], exit=d.choice([0, 0, 1, 2, 7, 99, 127, 255, d.int(0, 255)]),
                     argv=[d.choice(ARGS) for _ in range(d.int(0, 5))] + ([d.choice(['--matcher-help', '--help', '-h', '--verbose', '-g'])] if d.chance(0.2) else []), marker=d.int(0, 9999), supress=d.chance(0.2), filter=d.choice([None, None, 'wl_display', '* ! .bind']),
                     linger=d.choice([0, 0, 0, 0, 0, 0, 0, 1.3]), libwayland=d.chance(0.2), no_stdin=d.chance(0.3), slow_pipe=d.choice([None, None, None, None, None, None, [1.4, 0.0], [0.0, 1.2], [1.3, 0.3]]), nmsg=len(specs), hashseeds=[d.int(0, 4000) for _ in range(4)], exe=d.choice([None, None, None, 'child prog', 'a "b" c', 'back\\slash', 'x y z']), brk=d.choice([None, None, None, '.sync', 'wl_registry, wl_display', '*', 'wl_display ! .sync', '.bind']), parent_wayland_debug=d.choice([None, None, '1', 'client', 'server', '0', '']),
+                    file_via=d.choice([None, None, 'fifo', 'dev-stdin']),      # file mode given something that is not a regular file
                     via_shell=d.choice([None, None, None, 'sh', 'sh', 'dash', 'bash']))      # the program is named the usual way: a bare name found through PATH
 
     def execute(self, case):
@@ -117,6 +118,43 @@ class Modes(Stage):
                     res.bad('file-mode-passthrough-lines', '%d lines passed through, %d non-message lines in the stream' % (passed, nother))
             if out_f != out_p:
                 res.bad('file-vs-pipe-display', first_diff(out_f, out_p))
+            if case.get('file_via'):
+                # -l on a named pipe the program writes to, or on /dev/stdin: a path like any other
+                if case['file_via'] == 'fifo':
+                    import threading
+                    fifo = sc.path('stream.fifo')
+                    os.mkfifo(fifo)
+
+                    def feed():
+                        try:
+                            with open(fifo, 'wb') as f:
+                                cut = len(data) // 2
+                                f.write(data[:cut]); f.flush()
+                                f.write(data[cut:])
+                        except OSError:
+                            pass
+                    th = threading.Thread(target=feed, daemon=True)
+                    th.start()
+                    rc_v, out_v, err_v = cli.run_main(opts + ['-l', fifo], stdin=b'q\n', extra_env=hs[0], timeout=60)
+                    if rc_v is None:
+                        # nobody opened the pipe for reading: let the writer go
+                        try:
+                            fd = os.open(fifo, os.O_RDONLY | os.O_NONBLOCK); os.close(fd)
+                        except OSError:
+                            pass
+                    th.join(timeout=5)
+                else:
+                    rc_v, out_v, err_v = cli.run_main(opts + ['-l', '/dev/stdin'], stdin=data, extra_env=hs[0], timeout=60)
+                res.evals += 1
+                if rc_v is None:
+                    res.label('timeout(inconclusive)')
+                else:
+                    out_v = out_v.replace(PROMPT, b'')
+                    if rc_v != 0:
+                        res.bad('file-mode-exit-status:' + case['file_via'], 'exit %r, stderr %r' % (rc_v, err_v[-200:]))
+                    if out_v != out_f:
+                        res.bad('file-mode-display:' + case['file_via'], first_diff(out_f, out_v))
+                res.label('file-mode-on-' + case['file_via'])
             if case.get('brk'):
                 # pipe mode says once that nothing can be stopped there; the display itself must not differ
                 err_p = err_p.replace(b'Warning: Ignoring stop matcher when stdin is used for messages\n', b'', 1)
@@ -228,6 +266,59 @@ def first_diff(a, b):
     return '%d vs %d lines (first extra: %r)' % (len(la), len(lb), (la + lb)[min(len(la), len(lb))][:200])
 
 
+class OnATerminal(Stage):
+    """the same stream shown with standard output on a terminal and no colour option given - as when the tool is started by
+    hand: file mode and run mode (somebody at the keyboard), pipe mode (standard input is the stream) and file mode with
+    nobody at the keyboard must put the same bytes on the terminal"""
+    name = 'on-a-terminal'
+
+    def examples(self, tier):
+        return 5 if tier == 'quick' else 14 * 8
+
+    def gen(self, d, tier):
+        specs = histgen.history(d, nconn=d.int(1, 2), nmsg=d.int(2, 10), profile=PROFILE)
+        lines = []
+        for m in specs:
+            if d.chance(0.3):
+                lines.append(d.choice(['loading theme', 'warning: slow frame', '  indented', 'x = 1']))
+            lines.append(wire.render(m, 'new'))
+        return dict(text='\n'.join(lines) + '\n', exit=d.choice([0, 3]), opts=d.choice([[], [], ['--supress'], ['-f', 'wl_display']]))
+
+    def execute(self, case):
+        res = Result()
+        res.evals = 0
+        data = case['text'].encode()
+        opts = list(case['opts'])
+        with cli.Scratch() as sc:
+            log = sc.write('stream.log', data, 'wb')
+            child = sc.write('child.py', cli.CHILD)
+            spec = sc.write('spec.json', json.dumps(dict(report=sc.path('report.json'), chunks=[[list(data), 0]], exit=case['exit'], linger=0)))
+            runs = dict(
+                file=cli.run_main_on_terminal(opts + ['-l', log], stdin=b'q\n', stdin_terminal=True),
+                file_nobody=cli.run_main_on_terminal(opts + ['-l', log], stdin=b'', stdin_terminal=False),
+                pipe=cli.run_main_on_terminal(opts + ['-p'], stdin=data),
+                run=cli.run_main_on_terminal(opts + ['-r', cli.PY, child], stdin=b'q\n', stdin_terminal=True, extra_env=dict(WDV_CHILD_SPEC=spec)))
+        res.evals = len(runs)
+        if any(r[0] is None for r in runs.values()):
+            res.label('timeout(inconclusive)')
+            return res
+        shown = {k: r[1].replace(PROMPT, b'') for k, r in runs.items()}
+        if b'\x1b[' not in shown['file']:
+            res.label('no-colour-on-this-terminal(inconclusive)')       # the comparison would say nothing
+            return res
+        for k in ('file_nobody', 'pipe', 'run'):
+            if shown[k] != shown['file']:
+                res.bad('terminal-display:file-vs-%s' % k.replace('_', '-'), first_diff(shown['file'], shown[k]))
+        want = dict(file=0, file_nobody=0, pipe=0, run=case['exit'])
+        for k, r in runs.items():
+            if r[0] != want[k]:
+                res.bad('terminal-exit-status:' + k, '%s mode on a terminal exited with %r, expected %r; stderr %r' % (k, r[0], want[k], r[2][-200:]))
+        res.nontrivial = case['text'].count('\n') >= 3
+        res.label('stdout-on-a-terminal')
+        res.sample = dict(lines=case['text'].split('\n')[:5], opts=opts)
+        return res
+
+
 class C13(Prop):
     id = 'C13'
     rule = ('generated message streams with chatter (UTF-8 incl. multi-byte characters, final newline or not) are shown through real '
@@ -238,7 +329,7 @@ class C13(Prop):
             'non-trivial = stream >= 5 lines with a mid-line chunk boundary and a non-zero exit status or option-like argv; distinct by SHA-1.')
     assumptions = ['chunkings and delays are sampled on a real pipe; kernel scheduling is not enumerated (single reader thread)',
                    'LC_ALL=C.UTF-8; streams are valid UTF-8 here (undecodable bytes belong to C18)']
-    stages = [Modes()]
+    stages = [Modes(), OnATerminal()]
 
 
 PROP = C13()
